@@ -205,7 +205,7 @@ class ECustom(Content):
 
 
 # values and results that look like "nothing"
-NOTHINGS = [None, 0, "", {}, [], False, (0, {}), 0.0, ()]
+NOTHINGS = [None, 0, "", {}, [], False, (0, {}), 0.0, (), StopIteration(), StopIteration, float("nan")]
 
 
 def nothing(i):
